@@ -19,8 +19,10 @@ theorem code_look_to_rh (eye : P3 ℝ) (d up : V3 ℝ) (hd : 0 < d.magnitude2)
   have h := C09.lookToRh_spec eye d up hd hup
   exact ⟨M4.lookToRh eye d up, Trace.C09.t_m4_look_to_rh eye d up, h⟩
 
-/-- the left-handed constructor is the right-handed one for `-d`; `look_at_*(eye, center, up)` is `look_to_*(eye, center - eye, up)`;
-the Matrix3 constructors agree -/
+/-- the left-handed constructor is the right-handed one for `-d`; `look_at_*(eye, center, up)` is `look_to_*(eye, center - eye, up)`.
+Each conjunct says that a traced kernel equals a sibling constructor of the model (e.g. the `Matrix3::look_to_rh` kernel is the
+model's `M3.lookToLh` at `-d`, the `Basis3::look_at` kernel is `M3.lookToLh`); for the Matrix3 / Basis3 kernels nothing beyond
+these kernel = model-definition equalities is stated here -/
 theorem code_variants_agree (eye center : P3 ℝ) (d up : V3 ℝ) :
     t_m4_look_to_lh (envL (eye.toList ++ d.toList ++ up.toList)) = .okS (M4.lookToRh eye (-d) up).toList ∧
     t_m4_look_at_rh (envL (eye.toList ++ center.toList ++ up.toList)) = .okS (M4.lookToRh eye (center - eye) up).toList ∧
